@@ -153,8 +153,12 @@ type pESHeader struct {
 	data                  []byte
 }
 
-// ExtractTime extracts a PTS time
+// ExtractTime extracts a PTS time from the first five bytes.
+// It returns 0 if there are fewer than five bytes.
 func ExtractTime(bytes []byte) uint64 {
+	if len(bytes) < 5 {
+		return 0
+	}
 	var a, b, c, d, e uint64
 	a = uint64((bytes[0] >> 1) & 0x07)
 	b = uint64(bytes[1])
